@@ -292,6 +292,20 @@ def run(ctx):
     for o in sorted(set(seen) - set().union(*[d[2] for d in DOC_LEVELS])):
         ctx.inst("C10.R1", "op=%s" % o, False, "operator %s is registered but not in the documented table" % o, "blots-core/src/precedence.rs")
 
+    # whatever shape the builder has: pest's PrattParser binds in registration order, so a prefix / postfix operator registered inside the
+    # loop over the infix groups sits *between* infix levels (the documented table has every prefix operator above every infix one)
+    fb_ = core.hir_fn("blots_core::precedence::build_pratt_parser")["body"]
+    inside = []
+    for fo_ in H.walk(fb_):
+        if H.kind(fo_) != "For":
+            continue
+        ops_ = [n_ for n_ in H.walk(fo_["body"]) if H.kind(n_) == "MethodCall" and n_["name"] == "op"]
+        kinds_ = [(n_, {k_ for k_, _r in op_chain(n_["args"][0])}) for n_ in ops_]
+        has_infix = any(H.kind(x_) == "Call" and ("pratt_parser::Op" in (x_.get("def") or "") and (x_.get("def") or "").endswith("::infix")) for x_ in H.walk(fo_["body"]))
+        if has_infix:
+            inside += ["%s at %s" % (sorted(ks - {"infix", "?"}), H.loc(n_)) for n_, ks in kinds_ if ks & {"prefix", "postfix"}]
+    ctx.inst("C10.R1", "build_pratt_parser#nothing-between-infix-levels", not inside, "prefix / postfix registrations inside the loop that registers the infix groups: %s" % (inside or "none"), "blots-core/src/precedence.rs")
+
     # ---------------- R2 four-way agreement
     ctx.rule("C10.R2", "grammar operator alternatives = PRECEDENCE_TABLE rules = Pratt registrations = AST-builder match arms (infix, prefix, postfix, primary), and (Rule, BinaryOp) pairs agree between table and builder", floor=60)
     builder = core.hir_fn("blots_core::expressions::pairs_to_expr_inner")["body"]
